@@ -129,7 +129,9 @@ def m_step(stats, n_samples):
     for zeroeth_, first_, average_ in stats:
         zeroeth_order_statistics += zeroeth_
         first_order_statistics += first_
-        average_min_distance += average_
+        # each chunk reports the mean over its own samples: weight it by the
+        # number of samples of the chunk before dividing by the total
+        average_min_distance += average_ * zeroeth_.sum()
     average_min_distance /= n_samples
 
     means = first_order_statistics / zeroeth_order_statistics[:, None]
